@@ -137,7 +137,7 @@ struct VSolver : mp::BasicSolver {
     AddStrOption("a", "String option whose name lies in the totality alphabet.", &VSolver::GetA, &VSolver::SetA);
     AddStoredOption("f", "Flag.", f);
     AddStoredOption("alg:m meth method", "Stored int option with two inline synonyms.", m);
-    AddIntOption("pri:*:w pri_*_w", "Wildcard int option.", &VSolver::GetW, &VSolver::SetW, 0);
+    AddIntOption("pri:*:w pri_*_w wp*", "Wildcard int option; the second synonym has another head/tail shape.", &VSolver::GetW, &VSolver::SetW, 0);
     AddOptionSynonyms_OutOfLine("o:s ostr", "s");
     set_output_handler(&oh);
     if (collecting) set_error_handler(&eh);
@@ -307,7 +307,8 @@ static void build_alphabet() {
   struct SV { const char* env; const char* arg; const char* v; const char* c; };
   const SV svals[] = {{"abc", "abc", "abc", "plain"}, {"'a b'", "a b", "a b", "squoted-blank"},
                       {"\"q'q\"", "q'q", "q'q", "dquoted-apostrophe"}, {"''", "", "", "empty"},
-                      {"?x", "?x", "?x", "starts-with-qmark"}};
+                      {"?x", "?x", "?x", "starts-with-qmark"},
+                      {"r\xc3\xa9s.log", "r\xc3\xa9s.log", "r\xc3\xa9s.log", "non-ascii-unquoted"}};
   auto add = [&](Item it, bool red) { it.reduced = red; ALPHA.push_back(it); };
   auto queries = [&](Opt o, const NF& nf) {
     for (auto& sp : seps) {
@@ -371,7 +372,8 @@ static void build_alphabet() {
                   {"METH", "synonym1-upper", 0, false}, {"method", "synonym2", 0, false}, {"Method", "synonym2-mixed", 0, false}},
             false, 2);
   int_items(O_W, {{"pri:1:w", "wildcard-key1", "1", false}, {"pri:2:w", "wildcard-key2", "2", false},
-                  {"pri_1_w", "wildcard-synonym-key1", "1", false}, {"PRI:1:W", "wildcard-key1-upper", "1", true}},
+                  {"pri_1_w", "wildcard-synonym-key1", "1", false}, {"wp1", "wildcard-synonym2-key1", "1", false},
+                  {"wp2", "wildcard-synonym2-key2", "2", false}, {"PRI:1:W", "wildcard-key1-upper", "1", true}},
             false, 0);
   { // unknown names: plain, a synonym plus one letter, a wildcard near-miss
     const char* names[] = {"zz", "metho", "pri:1:x"};
@@ -387,12 +389,12 @@ static void build_alphabet() {
   static const char* REDUCED[] = {
     "n=0", "n=-7", "n=42", "n=99999999999", "N=42", "N=0", "n=?", "n 42",
     "d=1.5", "d=-2e3", "d=1e400", "D=1.5", "D=-2e3", "d=?", "d = 1.5",
-    "s=abc", "s='a b'", "s=\"q'q\"", "s=''", "s=?x", "S=abc", "o:s='a b'", "O:S=abc", "ostr=\"q'q\"", "OSTR=''", "OSTR=abc", "s=?", "s 'a b'",
+    "s=abc", "s='a b'", "s=\"q'q\"", "s=''", "s=?x", "s=r\xc3\xa9s.log", "S=abc", "o:s='a b'", "O:S=abc", "ostr=\"q'q\"", "OSTR=''", "OSTR=abc", "s=?", "s 'a b'",
     "f", "F", "f=1", "f=?",
     "alg:m=0", "alg:m=-7", "alg:m=42", "alg:m=99999999999", "ALG:M=42", "meth=0", "METH=-7", "METH=42", "method=42", "method=-7",
     "Method=0", "meth=?", "meth 42",
     "pri:1:w=0", "pri:1:w=42", "pri:1:w=99999999999", "pri:2:w=42", "pri:2:w=-7", "pri_1_w=-7", "pri_1_w=42", "PRI:1:W=42",
-    "pri:1:w=?", "pri_1_w 0",
+    "pri:1:w=?", "pri_1_w 0", "wp1=42", "wp2=-7",
     "zz=1", "zz", "metho=1", "pri:1:x=1"};
   for (auto& it : ALPHA) it.reduced = false;
   for (const char* r : REDUCED) {
